@@ -6,4 +6,4 @@ func verifC15NativeCwd(cwd, arg string) {}
 
 func verifC15NativeCheck(src, pat string, viaConfig bool) {}
 
-func verifC15NativeMultiRepo(wf string, order int) {}
+func verifC15NativeMultiRepo(wf string, order, format int) {}
